@@ -394,7 +394,8 @@ func (g *flowGen) importize() {
 func (g *flowGen) finish() {
 	p := g.p
 	p.NumFns = g.nfn
-	p.ConcurrentOK = !p.hasKind(KF64) && !p.anyPkgVarColl() // (a constant fallback value carries no execution number; a package-level variable is shared)
+	p.FBLit = p.Flow != nil && (p.nameOffset()/7)%3 == 0 && p.hasStructFallback()
+	p.ConcurrentOK = !p.hasKind(KF64) && !p.FBLit && !p.anyPkgVarColl() // (a constant fallback value carries no execution number; a package-level variable is shared)
 	p.GoTag = []string{"go1.21", "", "go1.20", "go1.18"}[p.nameOffset()%4]
 	p.PadLines = (p.nameOffset()/17)%4 == 0
 	p.InVarLit = !p.Generic && !p.InMethod && (p.nameOffset()/13)%6 == 0
@@ -415,6 +416,9 @@ func (g *flowGen) finish() {
 	}
 	if p.InVarLit {
 		feat["directive-in-package-level-func-literal"] = true
+	}
+	if p.FBLit {
+		feat["fallback-value-is-a-call-free-composite-literal-naming-the-function's-err"] = true
 	}
 	if p.anyPkgVarColl() {
 		feat["collection-argument-is-a-foreign-package-level-variable"] = true
@@ -781,4 +785,29 @@ func sortStrings(s []string) {
 			s[j], s[j-1] = s[j-1], s[j]
 		}
 	}
+}
+
+// hasStructFallback: some task with FallbackWith has an output of kind KStruct.
+func (p *Program) hasStructFallback() bool {
+	if p.Flow == nil {
+		return false
+	}
+	for i := range p.Flow.Tasks {
+		t := &p.Flow.Tasks[i]
+		if !t.Fallback {
+			continue
+		}
+		for _, o := range t.Fn.Outs {
+			if p.Types[o] == KStruct {
+				return true
+			}
+		}
+	}
+	return false
+}
+
+// ConstFB reports whether the fallback value of type id is written as a
+// constant expression (no execution number in its token).
+func (p *Program) ConstFB(id int) bool {
+	return p.Types[id] == KF64 || p.FBLit && p.Types[id] == KStruct
 }
